@@ -762,7 +762,7 @@ func (cs *Contracts) loadContractFile(path, pkgPath string, short map[string]str
 				gd.Fields = append(gd.Fields, "("+star+cs.qualify(m[1], pkgPath, short)+")."+m[2])
 			}
 			cs.Guards = append(cs.Guards, gd)
-		case "immutable", "guarded", "initonly", "noclaim", "neverclosed":
+		case "immutable", "guarded", "initonly", "noclaim", "neverclosed", "closeonly", "chanlog":
 			gd := &GuardDecl{Kind: word, Pkg: pkgPath}
 			body := rest
 			if i := strings.Index(body, " by "); i >= 0 {
